@@ -9,7 +9,7 @@ sys.path.insert(0, os.path.dirname(os.path.abspath(__file__)))
 import cxx2coq
 import vtable
 
-KINDS = ['hs', 'hm', 'ts', 'tm']
+KINDS = ['hs', 'hm', 'ts', 'tm', 'ho', 'tn', 'tnm']      # ho: open-addressing buckets; tn/tnm: tree nodes of capacity 4
 
 
 # ----------------------------------------------------------------------------------------------- case generator
@@ -24,7 +24,13 @@ def setups(kind):
         'big': ['insmany,0,10,40', 'insmany,1,200,3'],  # hash: second generation; tree: root is an internal node
         'cleared': ['insmany,0,10,5', 'clear,0,0'],
         'emptied': ['insmany,0,10,2', 'rmkey,0,10', 'rmkey,0,11'],
+        # crosses the hash growth thresholds 32 and 128 (two growths), resp. gives a 3-level tree (capacity-4 nodes: 4 levels)
+        'huge': ['insmany,0,-200,100', 'insmany,0,10,50', 'insmany,1,300,40'],
+        # shrunk after growth: many removals (tree: merges / root collapse), bucket array stays large
+        'shrunk': ['insmany,0,-100,100', 'insmany,0,10,5', 'rmif,0,7', 'rmif,0,5', 'rmif,0,11', 'rmif,0,9'],
     }
+    if kind in ('tn', 'tnm'):
+        S['node4'] = ['insmany,0,10,4']; S['node5'] = ['insmany,0,10,5']; S['node17'] = ['insmany,0,10,17']
     return S
 
 
@@ -62,8 +68,14 @@ def mutators(kind, present, absent):
               ['lower,0,%d,20' % present, 'rmrange,0,20,20'],
               ['begin,0,20', 'end,0,21', 'rmrange,0,20,21'],
               ['lower,0,%d,20' % (present + 3), 'lower,0,%d,21' % (present + 1), 'rmrange,0,20,21']]
-    else:
-        m += [['reserve,0,1'], ['reserve,0,33'], ['reserve,0,1000']]
+    elif kind != 'ho':
+        m += [['reserve,0,0'], ['reserve,0,1'], ['reserve,0,32'], ['reserve,0,33'], ['reserve,0,128'], ['reserve,0,129'], ['reserve,0,1000']]
+    # Insert(ExtractedItem&&) / Add(pos, ExtractedItem&&): the item extracted from one container goes into the other / back
+    m += [['find,0,%d,20' % (present + 1), 'extract,0,20', 'insext,1,%d,21' % (present + 1)],
+          ['find,0,%d,20' % (present + 1), 'extract,0,20', 'insext,0,%d,21' % (present + 1)],
+          ['find,1,100,20', 'extract,1,20', 'insext,0,100,21'],
+          ['find,0,%d,20' % (present + 1), 'extract,0,20',
+           ('upper,0,%d,22' if tree else 'find,0,%d,22') % (present + 1), 'addatext,0,22,%d' % (present + 1)]]
     return m
 
 
@@ -115,6 +127,22 @@ def gen_cases(ctx, scale):
     return cases
 
 
+def gen_assign(ctx):
+    """move- and copy-assignment (not in the model's alphabet: the destination's old version cell is destroyed, so only handles
+    of the SOURCE are used afterwards -- they follow the contents on a move and stay with the source on a copy)"""
+    cases = []
+    for kind in KINDS:
+        tree = kind[0] == 't'
+        for st in (['insmany,0,10,5'], ['insmany,0,10,40'], ['insmany,0,10,5', 'insmany,1,100,4'], []):
+            acq = ['find,0,12,1', 'find,0,70,2', 'begin,0,3', 'ins,0,12,5'] + (['lower,0,12,6'] if tree else [])
+            for op in ('moveto,0', 'copyto,0'):
+                uses_ = ['deref,1', 'chk,0,1,0', 'chk,1,1,0', 'chk,0,2,0', 'chk,1,2,0', 'deref,3', 'deref,5', 'reset,0,1,12', 'reset,1,1,12',
+                         'rmat,0,1', 'rmat,1,1', 'deref,5', 'find,0,12,30', 'find,1,12,31', 'deref,30', 'deref,31', 'ins,0,99,32', 'ins,1,98,33',
+                         'deref,32', 'deref,33', 'count,0', 'count,1']
+                cases.append(' '.join([kind] + st + acq + [op] + uses_))
+    return cases
+
+
 def gen_random(ctx, scale):
     """random histories over a small key domain; calls outside the modelled domain (e.g. Remove through a hash begin()
     iterator whose element the model does not know, a misplaced tree Add) are filtered out with the model in run()"""
@@ -126,12 +154,12 @@ def gen_random(ctx, scale):
         for _ in range(n_rand):
             ops = []
             if r.chance(1, 2):
-                ops.append('insmany,0,%d,%d' % (r.range(1, 6), r.choice([1, 3, 6, 31, 32, 33, 40])))
+                ops.append('insmany,0,%d,%d' % (r.range(1, 6), r.choice([1, 3, 4, 5, 6, 17, 31, 32, 33, 40, 129, 140])))
             if r.chance(1, 3):
                 ops.append('insmany,1,%d,%d' % (r.range(1, 12), r.choice([1, 3, 6, 33])))
             for _ in range(r.range(4, 14)):
                 c = r.below(2); k = r.range(1, 12); s = r.below(5); s2 = r.below(5)
-                t = r.below(26)
+                t = r.below(27)
                 if t == 0: ops.append('find,%d,%d,%d' % (c, k, s))
                 elif t == 1: ops.append('begin,%d,%d' % (c, s))
                 elif t == 2: ops.append('end,%d,%d' % (c, s))
@@ -150,12 +178,13 @@ def gen_random(ctx, scale):
                 elif t == 17: ops.append('rmkey,%d,%d' % (c, k))
                 elif t == 18: ops.append('rmif,%d,%d' % (c, r.choice([2, 3, 5, 1000003])))
                 elif t == 19: ops.append('clear,%d,%d' % (c, r.below(2)))
-                elif t == 20 and not tree: ops.append('reserve,%d,%d' % (c, r.choice([1, 30, 33, 129, 600])))
+                elif t == 20 and not tree and kind != 'ho': ops.append('reserve,%d,%d' % (c, r.choice([1, 30, 33, 129, 600])))
                 elif t == 21: ops.append('merge,%d' % c)
                 elif t == 22: ops.append('swap')
                 elif t == 23: ops.append('mergeself,%d' % c)
                 elif t == 24: ops.append('count,%d' % c)
                 elif t == 25: ops.append('has,%d,%d' % (c, k))
+                elif t == 26: ops += ['find,%d,%d,%d' % (c, k, s), 'extract,%d,%d' % (c, s), 'insext,%d,%d,%d' % (r.below(2), k, s2)]
             for s in range(5):
                 ops.append('deref,%d' % s)
             cases.append(' '.join([kind] + ops))
@@ -263,7 +292,24 @@ def oracle_case(case, out):
                     n = int(t[2:]) if t.startswith('A=') else 0
                     sp.modified(v[0], n > 0)
                     sp.keys[v[0]] = None if n > 0 else sp.keys[v[0]]
-        elif name == 'ins':
+        elif name == 'moveto':
+            s_, d_ = v[0], 1 - v[0]
+            sp.keys[d_] = sp.keys[s_]; sp.keys[s_] = set()
+            sp.ident[d_] = sp.ident[s_]; sp.ident[s_] = max(sp.epoch) + 1
+            sp.epoch[sp.ident[s_]] = 0; sp.touch[sp.ident[s_]] = 0
+        elif name == 'copyto':
+            s_, d_ = v[0], 1 - v[0]
+            sp.keys[d_] = set(sp.keys[s_]); sp.ident[d_] = max(sp.epoch) + 1
+            sp.epoch[sp.ident[d_]] = 0; sp.touch[sp.ident[d_]] = 0
+        elif name == 'addatext':
+            name = 'addat'
+            exp = sp.expect(v[1], v[0], need_elem=False)
+            h = sp.h.get(v[1])
+            if exp == 'A': exp = 'R' if not sp.tree else '?'
+            if sp.tree and (h is None or h['what'] in ('end', 'null', 'unknown')): exp = '?'
+            if acc:
+                sp.keys[v[0]].add(v[2]); sp.modified(v[0], True); sp.mk(v[1], v[0], 'elem', v[2])
+        elif name in ('ins', 'insext'):
             new = v[1] not in sp.keys[v[0]]
             sp.keys[v[0]].add(v[1]); sp.modified(v[0], new); sp.mk(v[2], v[0], 'elem', v[1])
         elif name == 'insmany':
@@ -307,6 +353,46 @@ def oracle(ctx, cases, lines):
         if 'R' in toks and any(t.startswith('A') for t in toks):
             ctx.nontrivial.add(c)
     return bad
+
+
+def measure(cases, lines):
+    """what actually happened in this run: per configuration the number of cases, per operation the outcomes, size bands of the
+    containers at the end of the histories (threshold crossings), boundary arguments"""
+    import collections
+    d = {}
+    for c, l in zip(cases, lines):
+        w = c.split(); kind = w[0]; ops = w[1:]
+        k = d.setdefault(kind, {'cases': 0, 'ops': collections.Counter(), 'final_size_band': collections.Counter(), 'events': collections.Counter()})
+        k['cases'] += 1
+        toks = l.split(' | ')[0].split()
+        for o, t in zip(ops, toks):
+            name = o.split(',')[0]
+            k['ops'][name + ':' + (t[0] if t and t[0] in 'ARXUC' else '?')] += 1
+            a = o.split(',')[1:]
+            if any(x in ('-1', '-2', '-3', str(2 ** 62)) for x in a): k['events']['argument near SIZE_MAX'] += 1
+        parts = l.split(' | ')
+        for p in parts[-2:] if kind in KINDS else parts[-1:]:
+            p = p.strip()
+            n = 0 if p in ('-', '') else len(re.split(r'[;,]', p))
+            band = '0' if n == 0 else '1-4' if n <= 4 else '5-32' if n <= 32 else '33-128' if n <= 128 else '>128'
+            k['final_size_band'][band] += 1
+        for o in ops:
+            a = o.split(',')
+            if a[0] == 'insmany' and int(a[3]) > 32: k['events']['bulk insert across 32 (hash growth / node split)'] += 1
+            if a[0] == 'insmany' and int(a[3]) > 128: k['events']['bulk insert across 128 (second hash growth)'] += 1
+            if a[0] == 'inskey' and int(a[1]) >= 100: k['events']['key-table growth (multimap)'] += 1; break
+    return {kind: {'cases': v['cases'], 'ops': dict(sorted(v['ops'].items())), 'final_size_band': dict(v['final_size_band']),
+                   'events': dict(v['events'])} for kind, v in d.items()}
+
+
+def measure2(cases, lines):
+    import collections
+    d = collections.Counter()
+    for c, l in zip(cases, lines):
+        m = re.search(r'^ok (\w+) mut=(.*?) use=(.*?) (?:indexed )?rej=(\d)', l)
+        if m:
+            d['%s | use=%s | %s' % (m.group(1), m.group(3), 'rejected' if m.group(4) == '1' else 'accepted')] += 1
+    return dict(sorted(d.items()))
 
 
 # ----------------------------------------------------------------------------------------------- stages
@@ -387,9 +473,16 @@ def oracle3_case(case, out):
     """harness3: the harness's own twins / 'rejected call changed the container' checks"""
     if out.startswith('CRASH') or out.startswith('?') or out == '<missing>':
         return ['harness reported %s' % out]
-    for t in out.split(' | ')[0].split():
-        if t.startswith('C!') or t.startswith('X') or t.startswith('?'):
-            return ['%s' % t]
+    ops = case.split()[1:]
+    for o, t in zip(ops, out.split(' | ')[0].split()):
+        if t.startswith('X'):
+            a = o.split(',')
+            # a length error / bad_alloc (container unchanged, checked by the harness) is the documented answer to a count near SIZE_MAX
+            if a[0] == 'insn' and (int(a[2]) < 0 or int(a[2]) >= 2 ** 40):
+                continue
+            return ['%s -> %s (an exception other than std::invalid_argument)' % (o, t)]
+        if t.startswith('C!') or t.startswith('?'):
+            return ['%s -> %s' % (o, t)]
     return []
 
 
@@ -437,6 +530,7 @@ def run(ctx):
     if any(not s['ok'] for s in ctx.stages.values()):
         ctx.log('a stage broke: searching the implementation for a failing input with the thorough generator')
         cases = cases + gen_cases(ctx, 6)[:len(cases)]
+    cases = cases + gen_assign(ctx)          # move / copy assignment: oracle only (not in the model's alphabet)
     rc, lines, err = run_harness(ctx, harness, cases, 'oracle')
     ctx.evaluations += len(cases)
     bad = oracle(ctx, cases, lines)
@@ -458,6 +552,7 @@ def run(ctx):
             rc, l2, err = run_harness(ctx, h2, c2, 'oracle2')
             ctx.evaluations += len(c2)
             bad2 = [(c, o, o) for c, o in zip(c2, l2) if oracle2_case(c, o)]
+            ctx.coverage['_m2'] = measure2(c2, l2)
             for c, o in zip(c2, l2):
                 if 'rej=' in o and not o.endswith('rej=0'):
                     ctx.nontrivial.add(c)
@@ -493,6 +588,7 @@ def run(ctx):
             rc, l3, err = run_harness(ctx, h3, c3, 'oracle3')
             ctx.evaluations += len(c3)
             bad3 = [(c, o, oracle3_case(c, o)[0]) for c, o in zip(c3, l3) if oracle3_case(c, o)]
+            ctx.coverage['_m3'] = measure(c3, l3)
             for c, o in zip(c3, l3):
                 tk = o.split(' | ')[0].split()
                 if 'R' in tk and any(x.startswith('A') for x in tk):
@@ -502,7 +598,10 @@ def run(ctx):
             report(ctx, bad3, 'harness3')
     for c in cases[::max(1, len(cases) // 6)][:6]:
         ctx.add_sample(c[:400])
-    ctx.coverage['input_distribution'] = {k: sum(1 for c in cases if c.startswith(k)) for k in KINDS}
+    dist = {'set_like (harness.cpp)': measure(cases, lines)}
+    if ctx.coverage.get('_m2') is not None: dist['triples (harness2.cpp): configuration | use | outcome -> count'] = ctx.coverage.pop('_m2')
+    if ctx.coverage.get('_m3') is not None: dist['histories (harness3.cpp)'] = ctx.coverage.pop('_m3')
+    ctx.coverage['input_distribution'] = dist
     return ctx.finish(rule=RULE)
 
 
